@@ -81,6 +81,24 @@ type HB struct {
 	CompactErrors     int
 	// Faults is the fault injector (nil unless HBFaults was set).
 	Faults *FaultFS
+	// Alt is the second admissible reference while the effect of a Put/Delete that *returned an error* (injected
+	// segment write fault) is undetermined: Ref is what the live read-back showed right after the failed call, Alt
+	// the other of {before, after}. Later acknowledged operations are applied to both; Alt is dropped as soon as the
+	// two coincide again (the key was rewritten or deleted by an acknowledged call).
+	Alt State
+	// FailedWriteErr is the error returned by the last call that failed through an injected segment write fault.
+	FailedWriteErr error
+	// Stopped is set when, after an injected write fault in the current session, a later call returned an error too:
+	// a database that refuses further work after an I/O error is not judged (the history ends there, nothing after
+	// the fault was acknowledged). faultInSession is reset by Open.
+	Stopped        bool
+	faultInSession bool
+	// FailWriteMinOff restricts the injected write fault to segment writes at or beyond this offset (512: record
+	// appends only, never the header of a segment being created).
+	FailWriteMinOff int64
+	// failWrite (set by PutFailing/DeleteFailing for one call): 1 = the next segment write fails as a whole,
+	// 2 = it writes a prefix and fails.
+	failWrite int
 }
 
 // SyncFailing calls db.Sync with the next fsync failing; the call must return an error and nothing counts as synced.
@@ -89,7 +107,7 @@ func (hb *HB) SyncFailing() {
 	hb.opN++
 	start := hb.Env.Crash.LogLen()
 	hb.Env.Crash.CurAPI = hb.opN
-	hb.H.Iv = append(hb.H.Iv, Interval{Desc: "sync (fsync fails)", Kind: "sync", Start: start, Adm: []State{hb.Ref.Clone()}, SyncIdx: hb.curSync, SyncAt: hb.curSyncAt})
+	hb.H.Iv = append(hb.H.Iv, Interval{Desc: "sync (fsync fails)", Kind: "sync", Start: start, Adm: hb.curAdm(), SyncIdx: hb.curSync, SyncAt: hb.curSyncAt})
 	err := hb.DB.Sync()
 	hb.H.Iv[len(hb.H.Iv)-1].End = hb.Env.Crash.LogLen()
 	if hb.Faults.Fired == "" {
@@ -165,7 +183,7 @@ func (hb *HB) fail(format string, a ...interface{}) {
 }
 
 func (hb *HB) live(desc string) {
-	if !hb.LiveCheck || hb.Failed != "" || hb.DB == nil {
+	if !hb.LiveCheck || hb.Failed != "" || hb.DB == nil || hb.Stopped {
 		return
 	}
 	st, err := Dump(hb.DB, hb.H.Keys)
@@ -189,12 +207,23 @@ func adm(before, after State) []State {
 func (hb *HB) closeCompactPart() {
 	end := hb.Env.Crash.LogLen()
 	hb.H.Iv = append(hb.H.Iv, Interval{Desc: hb.compactDesc, Kind: "compact", Start: hb.ivStart, End: end,
-		Adm: []State{hb.Ref.Clone()}, SyncIdx: hb.curSync, SyncAt: hb.curSyncAt})
+		Adm: hb.curAdm(), SyncIdx: hb.curSync, SyncAt: hb.curSyncAt})
 	hb.ivStart = end
 }
 
+// curAdm is the admissible set of an interval that changes nothing.
+func (hb *HB) curAdm() []State {
+	if hb.Alt != nil {
+		return []State{hb.Ref.Clone(), hb.Alt.Clone()}
+	}
+	return []State{hb.Ref.Clone()}
+}
+
 // record runs fn as one interval.
-func (hb *HB) record(desc, kind string, fn func() error, apply func()) error {
+func (hb *HB) record(desc, kind string, fn func() error, apply func(s State)) error {
+	if hb.Stopped {
+		return nil
+	}
 	if hb.inCompact {
 		hb.closeCompactPart()
 	}
@@ -206,20 +235,115 @@ func (hb *HB) record(desc, kind string, fn func() error, apply func()) error {
 	// the write is "in flight" from now on: register it before calling
 	after := before
 	if apply != nil {
-		apply()
+		apply(hb.Ref)
 		after = hb.Ref.Clone()
 	}
-	hb.H.Iv = append(hb.H.Iv, Interval{Desc: desc, Kind: kind, Start: start, Adm: adm(before, after), SyncIdx: hb.curSync, SyncAt: hb.curSyncAt})
+	admSet := adm(before, after)
+	if hb.Alt != nil {
+		altBefore := hb.Alt.Clone()
+		if apply != nil {
+			apply(hb.Alt)
+		}
+		admSet = append(admSet, adm(altBefore, hb.Alt.Clone())...)
+		if hb.Alt.Equal(hb.Ref) {
+			hb.Alt = nil
+		}
+	}
+	hb.H.Iv = append(hb.H.Iv, Interval{Desc: desc, Kind: kind, Start: start, Adm: admSet, SyncIdx: hb.curSync, SyncAt: hb.curSyncAt})
+	fw := hb.failWrite
+	hb.failWrite = 0
+	if fw != 0 {
+		hb.Faults.FailNextWrite(".psg", fw == 2, hb.FailWriteMinOff)
+	}
 	err := fn()
 	end := hb.Env.Crash.LogLen()
 	hb.H.Iv[ivIdx].End = end
 	if hb.inCompact {
 		hb.ivStart = end
 	}
+	if fw != 0 {
+		fired := hb.Faults.Fired
+		hb.Faults.ClearNext()
+		if fired != "" && err != nil {
+			// The call failed because of the injected fault: its effect is undetermined. What a read-back shows now must
+			// be the state before or after it (no other key touched); that becomes the reference, the other one stays
+			// admissible for recoveries until an acknowledged call settles the key.
+			if hb.C != nil {
+				hb.C.Stat("failed_segment_writes", 1)
+			}
+			hb.H.Iv[ivIdx].Desc = desc + " (segment write fails: " + fired + ")"
+			st, derr := Dump(hb.DB, hb.H.Keys)
+			if derr != nil {
+				hb.fail("read-back after failed %s: %v", desc, derr)
+				return err
+			}
+			var cands []State
+			cands = append(cands, admSet...)
+			found := -1
+			for i, a := range cands {
+				if st.Equal(a) {
+					found = i
+					break
+				}
+			}
+			if found < 0 {
+				hb.fail("after %s returned the injected error the contents are neither those before nor those after the call: %s", desc, st.Diff(before, 4))
+				return err
+			}
+			hb.Ref = st.Clone()
+			hb.Alt = nil
+			for i, a := range cands {
+				if i != found && !a.Equal(st) {
+					// keep one alternative (with one undetermined call at a time there are at most two distinct states)
+					hb.Alt = a.Clone()
+				}
+			}
+			hb.H.Iv[ivIdx].Adm = cands
+			hb.faultInSession = true
+			hb.FailedWriteErr = err
+			return err
+		}
+	}
 	if err != nil {
+		if hb.faultInSession && kind != "open" {
+			hb.Stopped = true
+			if hb.C != nil {
+				hb.C.Stat("histories_stopped_after_fault", 1)
+			}
+			return err
+		}
 		hb.fail("%s: %v", desc, err)
 	}
+	if kind == "open" && err == nil {
+		hb.faultInSession = false
+	}
 	return err
+}
+
+// PutFailing is Put with the next segment write failing (partial: a prefix reaches the file first).
+func (hb *HB) PutFailing(key, val []byte, partial bool) {
+	if hb.Alt != nil || hb.inCompact {
+		hb.Put(key, val)
+		return
+	}
+	hb.failWrite = 1
+	if partial {
+		hb.failWrite = 2
+	}
+	hb.Put(key, val)
+}
+
+// DeleteFailing is Delete with the next segment write failing.
+func (hb *HB) DeleteFailing(key []byte, partial bool) {
+	if hb.Alt != nil || hb.inCompact {
+		hb.Delete(key)
+		return
+	}
+	hb.failWrite = 1
+	if partial {
+		hb.failWrite = 2
+	}
+	hb.Delete(key)
 }
 
 func (hb *HB) markSynced() {
@@ -233,9 +357,11 @@ func (hb *HB) Put(key, val []byte) {
 	k, v := string(key), string(val)
 	err := hb.record(fmt.Sprintf("put %s len=%d", short(k), len(v)), "put", func() error {
 		return hb.DB.Put(append([]byte(nil), key...), append([]byte(nil), val...))
-	}, func() {
-		hb.H.Writes[k] = append(hb.H.Writes[k], WriteEv{Interval: len(hb.H.Iv), Val: v})
-		hb.Ref[k] = v
+	}, func(s State) {
+		if len(hb.H.Writes[k]) == 0 || hb.H.Writes[k][len(hb.H.Writes[k])-1].Interval != len(hb.H.Iv) {
+			hb.H.Writes[k] = append(hb.H.Writes[k], WriteEv{Interval: len(hb.H.Iv), Val: v})
+		}
+		s[k] = v
 	})
 	if err == nil && hb.H.Cfg.SyncWrites {
 		hb.markSynced()
@@ -248,9 +374,11 @@ func (hb *HB) Delete(key []byte) {
 	k := string(key)
 	err := hb.record(fmt.Sprintf("del %s", short(k)), "del", func() error {
 		return hb.DB.Delete(key)
-	}, func() {
-		hb.H.Writes[k] = append(hb.H.Writes[k], WriteEv{Interval: len(hb.H.Iv), Del: true})
-		delete(hb.Ref, k)
+	}, func(s State) {
+		if len(hb.H.Writes[k]) == 0 || hb.H.Writes[k][len(hb.H.Writes[k])-1].Interval != len(hb.H.Iv) {
+			hb.H.Writes[k] = append(hb.H.Writes[k], WriteEv{Interval: len(hb.H.Iv), Del: true})
+		}
+		delete(s, k)
 	})
 	if err == nil && hb.H.Cfg.SyncWrites {
 		hb.markSynced()
@@ -267,6 +395,9 @@ func (hb *HB) Sync() {
 
 // Compact runs a compaction; InWindow is invoked at every yield point.
 func (hb *HB) Compact() pogreb.CompactionResult {
+	if hb.Stopped {
+		return pogreb.CompactionResult{}
+	}
 	if hb.inCompact {
 		// nested: must be refused with the busy error
 		_, err := hb.DB.Compact()
@@ -298,6 +429,8 @@ func (hb *HB) Compact() pogreb.CompactionResult {
 	if err != nil {
 		if hb.AllowCompactError {
 			hb.CompactErrors++
+		} else if hb.faultInSession {
+			hb.Stopped = true
 		} else {
 			hb.fail("compact: %v", err)
 		}
